@@ -86,7 +86,7 @@ void h_parse6(void)
 	CHECK(r1 == 0 || r1 == -1, "C19 parser returns 0 or -1");
 	if (r1 == 0 && len == 2)
 		CANARY("'::' accepted reachable");
-	if (r1 == 0 && len >= 10)
+	if (r1 == 0 && len + 1 >= STRMAX)
 		CANARY("long text accepted reachable");
 	if (r1 == -1)
 		CANARY("rejection reachable");
